@@ -37,12 +37,22 @@ CONFIGS = [
     ({"prompt_storage": "notes", "include_prompts_in_repositories": ["*acme/*"],
       "exclude_prompts_in_repositories": ["*acme/secret*"]},
      [("origin", "https://example.invalid/acme/secret-app.git")], "local"),
+    # the remote is configured through a url.<base>.insteadOf shorthand: what counts is the URL git really uses
+    ({"prompt_storage": "notes", "exclude_prompts_in_repositories": ["*example.invalid/acme/*"],
+      "_insteadof": ["ex:", "https://example.invalid/"]},
+     [("origin", "ex:acme/app.git")], "local"),
+    ({"prompt_storage": "notes", "include_prompts_in_repositories": ["*example.invalid/acme/*"],
+      "_insteadof": ["ex:", "https://example.invalid/"]},
+     [("origin", "ex:acme/app.git")], "notes"),
 ]
 
 
 def effective_mode(cfg, remotes):
     """independent model of the documented precedence: exclusion, then include list, then fallback"""
     urls = [u for _n, u in remotes]
+    if cfg.get("_insteadof"):
+        short, base = cfg["_insteadof"]
+        urls = [base + u[len(short):] if u.startswith(short) else u for u in urls]
     for pat in cfg.get("exclude_prompts_in_repositories") or []:
         if any(fnmatch.fnmatchcase(u, pat) for u in urls) or (not urls and pat == "*"):
             return "local"
@@ -75,7 +85,8 @@ def reachable_note_blobs(w, repo, seen):
 class C08(C02):
     id = "C08"
     families = ["commits", "partial", "partial", "amend", "amend", "rebase", "rebase_i", "fastpath", "cherry_pick",
-                "squash_merge", "reset_recommit", "stash", "switch_carry", "ci_rewrite", "ci_rewrite", "pull"]
+                "squash_merge", "reset_recommit", "stash", "switch_carry", "ci_rewrite", "ci_rewrite", "pull",
+                "partial_amend", "partial_amend"]
     remote_families = ("ci_rewrite", "pull")
     quick_runs, thorough_runs = 400, 6000
     quick_budget_s, thorough_budget_s = 170, 1800
@@ -105,7 +116,10 @@ class C08(C02):
             cfg_extra, remotes, expect = free[index % len(free)]
         assert effective_mode(cfg_extra, remotes) == expect
         h["world"]["prompt_storage"] = cfg_extra.get("prompt_storage", "default")
-        h["world"]["config_extra"] = {k: v for k, v in cfg_extra.items() if k != "prompt_storage"}
+        h["world"]["config_extra"] = {k: v for k, v in cfg_extra.items() if k != "prompt_storage" and not k.startswith("_")}
+        if cfg_extra.get("_insteadof"):
+            short, base = cfg_extra["_insteadof"]
+            h["world"]["gitconfig"] = [['url "%s"' % base, "insteadOf", short]]
         h["cfg"]["remotes"] = [list(r) for r in remotes]
         h["cfg"]["effective"] = expect
         h["cfg"]["tokens"] = rng.random() < 0.6
